@@ -173,3 +173,14 @@ def run(ctx: Context) -> None:
         no_blocking_under_pool_lock(ctx, "C07.R4", tree, N)
         wait_for_cycles(ctx, "C07.R5", tree, N)
     rep.assume("Event.set() / list operations / constructors do not block")
+
+_core_run = run
+
+
+def run(ctx: Context) -> None:  # noqa: F811
+    _core_run(ctx)
+    from . import backend
+
+    ctx.rep.rule('C07.R8', 'the event / semaphore / lock primitives cannot lose a wake-up (shared with C08.R9)')
+    backend.primitives(ctx, 'C07.R8')
+    ctx.rep.explanation = (ctx.rep.explanation or '') + ' R8 (primitives, shared with C08.R9): set()/release() always reaches the one primitive every waiter waits on.'
